@@ -18,6 +18,33 @@ def tup(t):
     return (tuple(tuple(r) for r in t[0]), tuple(t[1]))
 
 
+def ctor_qubits(repo):
+    """expression stored as self.qubits by CliffordGate.__init__ (normally just `qubits`)"""
+    import ast
+    from ..flow import walk
+    ini = repo.cls('pyclifford', 'CliffordGate').methods['__init__']
+    for st, ctx in walk(ini.node):
+        if isinstance(st, ast.Assign) and norm(st.targets[0]) == 'self.qubits':
+            return st.value, (ini.vararg or 'qubits')
+    return None, None
+
+
+def with_gate_attrs(repo, envs):
+    """add 'gate.qubits' (what the constructed gate stores) to every env, so that guards on the gate object are decidable"""
+    from ..exprnf import ev, Undecidable
+    expr, pname = ctor_qubits(repo)
+    out = []
+    for e in envs:
+        e = dict(e)
+        if expr is not None and 'qubits' in e:
+            try:
+                e['gate.qubits'] = ev(expr, {pname: e['qubits']}, call=tables.std_call, sub=tables.std_sub)
+            except Undecidable:
+                pass
+        out.append(e)
+    return out
+
+
 def check(run):
     repo = run.repo
     fs = {n: repo.func(REL, n) for n in ('H', 'S', 'X', 'Y', 'Z', 'C', 'CNOT')}
@@ -105,7 +132,7 @@ def check(run):
     run.check(ok, 'R12.wiring', f, 'forward map of C', why)
     # ---- CNOT, both orientations (the mask is order-blind: local wire 0 is the smaller qubit index)
     f = fs['CNOT']
-    valid = [{'qubits': q} for q in ((0, 1), (1, 0), (0, 2), (2, 0), (1, 3), (3, 1), (4, 5), (7, 2))]
+    valid = with_gate_attrs(repo, [{'qubits': q} for q in ((0, 1), (1, 0), (0, 2), (2, 0), (1, 3), (3, 1), (4, 5), (7, 2))])
     for env, r in zip(valid, tables.gate_tables(repo, f, valid)):
         q = env['qubits']
         if r[0] != 'table':
